@@ -234,10 +234,10 @@ impl Pair {
         for cpu in [&mut self.real, &mut self.twin] {
             // clear what an earlier program left behind
             for a in (CODE..CODE + 0x400).chain(DATA..DATA + 0x800).chain(STACK - 0x100..STACK) {
-                cpu.bus.dram[(a - 0x400000) as usize] = 0;
+                let _ = cpu.bus.write(a, 0);
             }
             for k in 0..0x100usize {
-                cpu.bus.exception_handling_vector[k] = 0;
+                let _ = cpu.bus.write(k as u32, 0);
                 cpu.bus.io_registrs1[k] = 0;
             }
             for k in 0..cpu.bus.io_registrs2.len() {
